@@ -190,19 +190,19 @@ func runC12(c *Ctx) {
 		for _, fn := range SortedFuncs(may) {
 			names = append(names, FuncName(fn))
 		}
-		c.Note("sentinel %s: functions that may return it unfiltered: %s", g.Name(), joinStr(names))
+		c.Note("sentinel %s: functions that may return it unfiltered: %s", N(g), joinStr(names))
 		// (a) no extraction impl, nor validate, may return it
 		for _, t := range p.Implementers(cph) {
 			m := p.MethodOf(t, "extractProtocolRequestHeaders")
 			if m == nil {
 				fatalf("anchor=%s.extractProtocolRequestHeaders", typeName(t))
 			}
-			c.Check(!may[m], "C12.1", FuncName(m), "sentinel-not-returned:"+g.Name(), m.Pos(),
+			c.Check(!may[m], "C12.1", FuncName(m), "sentinel-not-returned:"+N(g), m.Pos(),
 				"request-header extraction cannot return the 'effectively unbounded' sentinel as an error",
-				"request-header extraction may return the sentinel "+g.Name()+" (meaning: valid header, no effective deadline) as an error; validation turns it into a rejection of a syntactically valid timeout")
+				"request-header extraction may return the sentinel "+N(g)+" (meaning: valid header, no effective deadline) as an error; validation turns it into a rejection of a syntactically valid timeout")
 		}
-		c.Check(!may[validate], "C12.1", FuncName(validate), "sentinel-not-returned:"+g.Name(), validate.Pos(),
-			"validate cannot fail with the sentinel", "validate may return the sentinel "+g.Name()+": the request is rejected")
+		c.Check(!may[validate], "C12.1", FuncName(validate), "sentinel-not-returned:"+N(g), validate.Pos(),
+			"validate cannot fail with the sentinel", "validate may return the sentinel "+N(g)+": the request is rejected")
 		// (b) no tainted value reaches an HTTP-error constructor / reporter
 		for _, fn := range p.Funcs {
 			for _, call := range Calls(fn) {
@@ -222,7 +222,7 @@ func runC12(c *Ctx) {
 					for _, v := range vals {
 						if tainted(v, call.Block()) {
 							c.Bad("C12.1", FuncName(fn), "sentinel-to-error-sink:"+CalleeName(call), call.Pos(),
-								"a value that may be the sentinel "+g.Name()+" is turned into an error response")
+								"a value that may be the sentinel "+N(g)+" is turned into an error response")
 						}
 					}
 				}
@@ -245,8 +245,8 @@ func runC12(c *Ctx) {
 		for _, st := range sts {
 			fld := FieldOfAddr(st.Addr.(*ssa.FieldAddr))
 			if !extractReach[fn] {
-				c.Bad("C12.2", FuncName(fn), "store:"+fld.Name(), st.Pos(),
-					"requestMeta."+fld.Name()+" is stored outside request-header extraction: the deadline handed to the backend can differ from the client's")
+				c.Bad("C12.2", FuncName(fn), "store:"+N(fld), st.Pos(),
+					"requestMeta."+N(fld)+" is stored outside request-header extraction: the deadline handed to the backend can differ from the client's")
 				continue
 			}
 			if fld == hasFld {
@@ -312,7 +312,7 @@ func runC12(c *Ctx) {
 	for _, fn := range p.Funcs {
 		for _, call := range Calls(fn) {
 			cc := call.Common()
-			if !cc.IsInvoke() || cc.Method.Name() != "addProtocolRequestHeaders" {
+			if !cc.IsInvoke() || N(cc.Method) != "addProtocolRequestHeaders" {
 				continue
 			}
 			c.CountSite()
@@ -335,7 +335,7 @@ func runC12(c *Ctx) {
 								for _, r2 := range *fa.Referrers() {
 									if _, isSt := r2.(*ssa.Store); isSt {
 										ok = false
-										why = "the copy's " + f.Name() + " field is overwritten before encoding"
+										why = "the copy's " + N(f) + " field is overwritten before encoding"
 									}
 								}
 							}
